@@ -278,7 +278,7 @@ func init() {
 		}
 	}
 	pbt.SetProperty("C09")
-	pbt.Describe("sub-check units: compilation units from a grammar-directed generator over the productions of the shipped JavaParser.g4 (every type kind incl. nested/local/anonymous, type parameters with bounds, all member kinds, initialiser blocks, explicit constructor calls, receiver parameters, varargs, every annotation argument form incl. the `pkg.@Ann Type` form, arrays in every position, lambdas, method references, switch statements/expressions, patterns, literals of every kind incl. text blocks, non-ASCII identifiers and literals, comments of many shapes (text lengths 0-6 around the TODO/FIXME markers, markers cut short or run on, assignee brackets open, closed, nested, empty; a comment ending the file without newline), files without package, empty files, files with only a package declaration, only imports or only `;`, module and package-info units, several top-level types, imports with a single segment, interface and annotation-type members carrying the keyword modifiers of the grammar's modifier rule (native, synchronized, transient, volatile), names that are exactly or nearly a prefix the tool looks for (get, set, is, getter, get1, $, $$ ...), members at, one below and one above the thresholds of the bad-smell pass (20 methods, 8 ifs / switches, 30 lines, 3-line if condition; also as the only content of the file), units that live in the package of the ordinary files of the 3-file project, import them, reuse their names and implement the annotated interface zz.nb.NbService); rendered with LF, CRLF or CR line ends, with or without final newline, or on as few lines as possible; valid Java syntax by construction, then filtered by the shipped lexer+parser reporting zero errors (rejections = skipped). Sub-check fixtures: every .java file under _fixtures and languages of the repository, unchanged and under token-stream rewrites (re-indentation, comment insertion at token gaps incl. the boundary shapes above, consistent identifier renaming incl. renaming a method to exactly get / set / is / $, blank-line changes, CRLF); a sweep runs each file once unchanged and once per rewrite kind. Sub-check cli: generated units through `coca analysis`, `coca bs` (plain and -s type -x ...), `coca api -f`, `coca todo` on the 3-file project: exit status 0, no Go panic / fatal error in the output, reports are JSON and still hold the ordinary files. Oracle (units, fixtures): each of the six passes (identifier, full, bad-smell AnalysisPath+IdentifyBadSmell, API scan, unused-import Analysis, todo scan) from fresh package state on a directory with the file alone and on a project with the file between ordinary files (a class, an interface with an annotated method, a Spring controller): no panic, result serialisable with encoding/json, and the ordinary files keep their entries (identity only: package/type/kind/function names, verb+uri+handler, file+line+message). Non-trivial (units, cli) = at least one production outside the conventional subset of DESIGN 3.1; distinct = hash of the production multiset. Non-trivial (fixtures) = at least one rewrite applied; distinct = hash of the rewritten text. classes = productions used (counters prod:* list every production of the generator, 0 = not reached).",
+	pbt.Describe("sub-check units: compilation units from a grammar-directed generator over the productions of the shipped JavaParser.g4 (every type kind incl. nested/local/anonymous, type parameters with bounds, all member kinds, initialiser blocks, explicit constructor calls, receiver parameters, varargs, every annotation argument form incl. the `pkg.@Ann Type` form, arrays in every position, lambdas, method references, switch statements/expressions, patterns, literals of every kind incl. text blocks, non-ASCII identifiers and literals, comments of many shapes (text lengths 0-6 around the TODO/FIXME markers, markers cut short or run on, assignee brackets open, closed, nested, empty; a comment ending the file without newline), files without package, empty files, files with only a package declaration, only imports or only `;`, module and package-info units, several top-level types, imports with a single segment, interface and annotation-type members carrying the keyword modifiers of the grammar's modifier rule (native, synchronized, transient, volatile), names that are exactly or nearly a prefix the tool looks for (get, set, is, getter, get1, $, $$ ...), members at, one below and one above the thresholds of the bad-smell pass (20 methods, 8 ifs / switches, 30 lines, 3-line if condition; also as the only content of the file), units that live in the package of the ordinary files of the 3-file project, import them, reuse their names and implement the annotated interface zz.nb.NbService), class and interface types of every dotted / parameterized form in every type position (declarations of fields, parameters, local variables, resources, enhanced-for variables; extends / implements / permits lists, bounds, casts, type arguments; created names of `new`): `T`, `T<X>`, `a.b.T`, `a.b.T<X>` (first `<` after a dot), `a.b.Outer.Inner<X>`, `Outer.Inner`, `Outer.Inner<K, V>`, `A<X>.B`, `A<X>.B<Y>`, `new a.b.T<X>()`, `new a.b.T<>()`, `new Outer.Inner<X>()`, type names that are the simple name of one of the unit's own imports or the name of an enclosing class, and uses of declared variables: the generator keeps the variables visible at each point (fields, record components, parameters incl. lambda parameters, local variables, resources, enhanced-for variables, catch parameters, pattern variables, with Java's block scoping) and a simple name in an expression is, about every second time, one of them instead of a name from the pool - as receiver of a method call or explicit generic invocation (`x.m()`, `x.a().b()`, `x.<T>m()`), as target of a method reference (`x::m`), after `this.` (`this.field.m()`), as operand, argument, array, assignment target or try resource - so that each pass's symbol tables are hit with every declared-type shape above (classes receiver.declaredAs.* count the receivers by the shape of their declared type, use.of* the uses by kind of variable); rendered with LF, CRLF or CR line ends, with or without final newline, or on as few lines as possible; valid Java syntax by construction, then filtered by the shipped lexer+parser reporting zero errors (rejections = skipped). Sub-check fixtures: every .java file under _fixtures and languages of the repository, unchanged and under token-stream rewrites (re-indentation, comment insertion at token gaps incl. the boundary shapes above, consistent identifier renaming incl. renaming a method to exactly get / set / is / $, blank-line changes, CRLF); a sweep runs each file once unchanged and once per rewrite kind. Sub-check cli: generated units through `coca analysis`, `coca bs` (plain and -s type -x ...), `coca api -f`, `coca todo` on the 3-file project: exit status 0, no Go panic / fatal error in the output, reports are JSON and still hold the ordinary files. Oracle (units, fixtures): each of the six passes (identifier, full, bad-smell AnalysisPath+IdentifyBadSmell, API scan, unused-import Analysis, todo scan) from fresh package state on a directory with the file alone and on a project with the file between ordinary files (a class, an interface with an annotated method, a Spring controller): no panic, result serialisable with encoding/json, and the ordinary files keep their entries (identity only: package/type/kind/function names, verb+uri+handler, file+line+message). Non-trivial (units, cli) = at least one production outside the conventional subset of DESIGN 3.1; distinct = hash of the production multiset. Non-trivial (fixtures) = at least one rewrite applied; distinct = hash of the rewritten text. classes = productions used (counters prod:* list every production of the generator, 0 = not reached).",
 		"value differences in the neighbours' entries caused by state carried from file to file are C07's subject and are not judged here; only presence/identity of the entries is",
 		"constructs the shipped grammar rejects are not generated (compact record constructors, varargs record components, local enums, annotated `new @A T()`, `Outer.super::m`)",
 		"the domain is the shipped grammar (the property's quantifier): keyword modifiers in front of interface members are sentences of it although javac rejects them in a later phase; sentences only the shipped grammar accepts and no Java parser does (`implements int`, `new int()`) are not generated",
